@@ -18,7 +18,7 @@ VERIF = harness.VERIF
 TIERS = {
     # seconds of search, chunk size, determinism self-test seeds
     "quick": {"budget": 55.0, "chunk": 24, "selftest": 12},
-    "thorough": {"budget": 840.0, "chunk": 48, "selftest": 96},
+    "thorough": {"budget": 840.0, "chunk": 16, "selftest": 96},
 }
 
 
@@ -62,6 +62,8 @@ def work_chunk(args):
         if time.time() > deadline:
             break
         agg["next"] = idx + 1
+        faulthandler.cancel_dump_traceback_later()
+        faulthandler.dump_traceback_later(900, exit=True)  # watchdog per history, not per chunk
         for seed, case, res in one_run(check, tier, verif_seed, idx):
             agg["runs"] += 1
             if res["harness_error"]:
@@ -238,7 +240,11 @@ def batch(check, tier, verif_seed, budget, procs, max_runs=None):
             pending.clear()
             pending.update(pending_now)
             for fut in done:
-                part = fut.result()
+                try:
+                    part = fut.result()
+                except Exception as e:  # a worker died (watchdog, crash): harness error, never success
+                    print("HARNESS-ERROR: worker failed: %r" % (e,), flush=True)
+                    os._exit(2)
                 merge(agg, part)
                 for v in part["violations"]:
                     sig = v["violation"]["sig"]
